@@ -356,6 +356,8 @@ type reqT struct {
 	Forged     map[string][]string `json:"forged,omitempty"`  // canonical header -> client-supplied values
 	ConnNames  []string            `json:"conn_names,omitempty"`
 	Token      string              `json:"token"`
+	HintKind   string              `json:"hint_kind,omitempty"`   // request header(s) / query parameter a routing shortcut could consult
+	HintMethod string              `json:"hint_method,omitempty"` // the method named there
 }
 
 type caseT struct {
@@ -677,8 +679,77 @@ func forgedValue(rng *rand.Rand, canon string) string {
 
 // genHeaders builds the header block of one request.  noClose: the request is
 // followed by another one on the same connection.
-func genHeaders(rng *rand.Rand, q *reqT, hostOfService string, noClose bool) {
+// hintKinds are the request features a plausible routing shortcut could look at
+// instead of the request line.
+var hintKinds = []string{"cors-preflight", "cors-preflight", "cors-origin-only", "cors-acrm-only",
+	"x-http-method-override", "x-http-method", "x-method-override", "query-_method", "form-_method",
+	"upgrade", "expect-continue", "content-type", "x-original-url", "x-forwarded-method"}
+
+// genHint adds one routing hint to the request.  docMethod is the method that
+// the documentation gives for the request's path ("" if the path is not from a
+// documented template).
+func genHint(rng *rand.Rand, q *reqT, hs []hdr, docMethod, kind string, formBody *string) []hdr {
+	m := docMethod
+	if m == "" || rng.IntN(100) < 20 {
+		m = pick(rng, []string{"GET", "POST", "POST", "GET", "get", "post", "PUT", "OPTIONS"})
+	}
+	q.HintKind, q.HintMethod = kind, m
+	add := func(n, v string) { hs = append(hs, hdr{caseVariant(rng, n), v}) }
+	origin := pick(rng, []string{"https://adguard-dns.io", "https://evil.example", "null", "http://localhost:3000"})
+	switch kind {
+	case "cors-preflight":
+		add("Origin", origin)
+		add("Access-Control-Request-Method", m)
+		if rng.IntN(2) == 0 {
+			add("Access-Control-Request-Headers", pick(rng, []string{"content-type", "x-connecting-ip, content-type", "authorization"}))
+		}
+	case "cors-origin-only":
+		add("Origin", origin)
+	case "cors-acrm-only":
+		add("Access-Control-Request-Method", m)
+	case "x-http-method-override":
+		add("X-HTTP-Method-Override", m)
+	case "x-http-method":
+		add("X-HTTP-Method", m)
+	case "x-method-override":
+		add("X-Method-Override", m)
+	case "query-_method":
+		if q.Lenient == "" {
+			sep := "?"
+			if strings.Contains(q.Target, "?") {
+				sep = "&"
+			}
+			q.Target += sep + "_method=" + m
+		}
+	case "form-_method":
+		add("Content-Type", "application/x-www-form-urlencoded")
+		*formBody = "_method=" + m + "&x=1"
+	case "upgrade":
+		add("Upgrade", pick(rng, []string{"websocket", "h2c", "WebSocket"}))
+		hs = append(hs, hdr{"Connection", pick(rng, []string{"upgrade", "Upgrade", "keep-alive, Upgrade"})})
+		q.ConnNames = append(q.ConnNames, "Upgrade")
+	case "expect-continue":
+		if q.Proto == "HTTP/1.1" {
+			add("Expect", "100-continue")
+		}
+	case "content-type":
+		add("Content-Type", pick(rng, []string{"application/json", "multipart/form-data; boundary=x", "text/plain", "application/x-www-form-urlencoded; charset=utf-8", "message/http"}))
+	case "x-original-url":
+		_, pth, _ := splitTarget(q.Target)
+		if pth == "" {
+			pth = "/linkip/dev1234/0123456789"
+		}
+		add(pick(rng, []string{"X-Original-URL", "X-Rewrite-URL", "X-Forwarded-Uri", "X-Forwarded-Prefix"}), pick(rng, []string{pth, "/linkip/dev1234/0123456789", "/ddns/dev1234/0123456789/example.com"}))
+		add(pick(rng, []string{"X-Original-Method", "X-Forwarded-Method"}), m)
+	case "x-forwarded-method":
+		add("X-Forwarded-Method", m)
+	}
+	return hs
+}
+
+func genHeaders(rng *rand.Rand, q *reqT, hostOfService string, noClose bool, docMethod string, forceHint bool) {
 	var hs []hdr
+	formBody := ""
 	q.Forged = map[string][]string{}
 	addForged := func(name string) {
 		canon := http.CanonicalHeaderKey(name)
@@ -800,6 +871,18 @@ func genHeaders(rng *rand.Rand, q *reqT, hostOfService string, noClose bool) {
 	}
 
 	hs = append(hs, hdr{"X-Verif-Case", q.Token})
+	// routing hints: more often where the method is not GET/POST
+	hintPct := 18
+	if q.Method != "GET" && q.Method != "POST" {
+		hintPct = 45
+	}
+	if forceHint || rng.IntN(100) < hintPct {
+		kind := pick(rng, hintKinds)
+		if forceHint && strings.EqualFold(q.Method, "OPTIONS") && rng.IntN(2) == 0 {
+			kind = "cors-preflight"
+		}
+		hs = genHint(rng, q, hs, docMethod, kind, &formBody)
+	}
 	for _, l := range connLines {
 		hs = append(hs, hdr{pick(rng, []string{"Connection", "Connection", "connection", "CONNECTION"}), l})
 	}
@@ -826,6 +909,9 @@ func genHeaders(rng *rand.Rand, q *reqT, hostOfService string, noClose bool) {
 		q.BodyKind = "content-length"
 		n := rng.IntN(48)
 		q.Body = strings.Repeat("x", n)
+		if formBody != "" {
+			q.Body, n = formBody, len(formBody)
+		}
 		hs = append(hs, hdr{pick(rng, []string{"Content-Length", "content-length"}), strconv.Itoa(n)})
 	}
 
@@ -858,6 +944,21 @@ func genCase(r *vkit.Run, idx int, hostOfService string, localIPs []string) case
 		p := genPath(rng)
 		q.PathMode = p.Mode
 		q.Method, q.MethodKind, q.Lenient = genMethod(rng, p.Method)
+		// "hinted": a clean documented path, a method other than the
+		// documented one, and a header / parameter that names a method (mostly
+		// the documented one) where a routing shortcut could pick it up
+		hinted := rng.IntN(100) < 9
+		if hinted {
+			segs, m := genTemplate(rng)
+			p = pathT{join(segs), m, "hinted"}
+			q.PathMode, q.Lenient = p.Mode, ""
+			q.Method = pick(rng, []string{"OPTIONS", "OPTIONS", "OPTIONS", "HEAD", "PUT", "DELETE", "PATCH", "get", "post", "options", "TRACE", "GET", "POST"})
+			q.MethodKind = "hinted:" + q.Method
+			if q.Method == m {
+				// the documented method itself: name the other one
+				p.Method = map[string]string{"GET": "POST", "POST": "GET"}[m]
+			}
+		}
 		target := p.Path
 		if rng.IntN(100) < 30 {
 			target += pick(rng, []string{"?a=b", "?x=/../..", "?", "?q=%2e%2e/", "?a=1;b=2", "?/linkip/a/b", "?status", "?d=" + genID(rng), "?%zz", "?a=b?c=d"})
@@ -908,7 +1009,11 @@ func genCase(r *vkit.Run, idx int, hostOfService string, localIPs []string) case
 			// keep two-request connections well-formed: replace an invalid method
 			q.Method, q.MethodKind, q.Lenient = "FOO", "garbage", ""
 		}
-		genHeaders(rng, &q, hostOfService, n == 2 && k == 0)
+		docMethod := ""
+		if strings.HasPrefix(p.Mode, "template") || p.Mode == "hinted" || p.Mode == "multienc" || p.Mode == "escape" {
+			docMethod = p.Method
+		}
+		genHeaders(rng, &q, hostOfService, n == 2 && k == 0, docMethod, hinted)
 		c.Reqs = append(c.Reqs, q)
 	}
 	return c
@@ -954,6 +1059,19 @@ func fixedCases(ipsFor func(idx int) []string) []caseT {
 		{"GET", "/linkip/%25252e%25252e/admin/status", nil},
 		{"POST", "/ddns/dev1234/0123456789/%252e%252e", nil},
 	}
+	cors := func(m string) []hdr {
+		return []hdr{{"Origin", "https://adguard-dns.io"}, {"Access-Control-Request-Method", m}}
+	}
+	list = append(list,
+		fc{"OPTIONS", "/ddns/dev1234/0123456789/example.com", cors("POST")},
+		fc{"OPTIONS", "/linkip/dev1234/0123456789", cors("GET")},
+		fc{"OPTIONS", "/linkip/dev1234/0123456789/status", cors("GET")},
+		fc{"OPTIONS", "/linkip/dev1234/0123456789", cors("POST")},
+		fc{"PUT", "/linkip/dev1234/0123456789", []hdr{{"X-HTTP-Method-Override", "POST"}}},
+		fc{"HEAD", "/linkip/dev1234/0123456789/status", []hdr{{"X-HTTP-Method", "GET"}}},
+		fc{"DELETE", "/ddns/dev1234/0123456789/example.com?_method=POST", []hdr{{"X-Method-Override", "POST"}}},
+		fc{"GET", "/ddns/dev1234/0123456789/example.com", []hdr{{"X-HTTP-Method-Override", "POST"}}},
+	)
 	// the root path, the robots file and static paths: 6 consecutive copies of
 	// each, so that every service configuration (case index mod 6) sees each
 	for _, f := range []fc{{"GET", "/", nil}, {"POST", "/", nil}, {"GET", "/?x=1", nil}, {"HEAD", "/", nil}, {"GET", "//", nil},
@@ -976,6 +1094,16 @@ func fixedCases(ipsFor func(idx int) []string) []caseT {
 						q.ConnNames = append(q.ConnNames, http.CanonicalHeaderKey(n))
 					}
 				}
+				continue
+			}
+			switch canon {
+			case "Origin":
+				continue
+			case "Access-Control-Request-Method":
+				q.HintKind, q.HintMethod = "cors-preflight", h.Value
+				continue
+			case "X-Http-Method-Override", "X-Http-Method", "X-Method-Override":
+				q.HintKind, q.HintMethod = strings.ToLower(canon), h.Value
 				continue
 			}
 			q.Forged[canon] = append(q.Forged[canon], h.Value)
@@ -1266,6 +1394,10 @@ func runCase(f *fixture, fi int, c caseT) outcome {
 		nb := f.taken()
 		_, werr := conn.Write(c.Reqs[i].wire())
 		resp, rerr := http.ReadResponse(br, &http.Request{Method: c.Reqs[i].Method})
+		for rerr == nil && resp.StatusCode >= 100 && resp.StatusCode < 200 && resp.StatusCode != http.StatusSwitchingProtocols {
+			// interim response (100 Continue for "Expect: 100-continue")
+			resp, rerr = http.ReadResponse(br, &http.Request{Method: c.Reqs[i].Method})
+		}
 		if rerr != nil {
 			rt := respT{Err: rerr.Error()}
 			if werr != nil {
@@ -1369,8 +1501,9 @@ func classKey(q *reqT, v verdict) string {
 	}
 	sort.Strings(fs)
 	_, _, query := splitTarget(q.Target)
-	return fmt.Sprintf("%s|%s|/%s|q=%v|fwd=%s|conn=%s|body=%s|%s", q.MethodKind+":"+q.Method, v.Form,
-		strings.Join(ks, "/"), query != "" || strings.HasSuffix(q.Target, "?"), strings.Join(fs, ","), q.ConnKind, q.BodyKind, q.Proto)
+	return fmt.Sprintf("%s|%s|/%s|q=%v|fwd=%s|conn=%s|body=%s|%s|hint=%s:%s", q.MethodKind+":"+q.Method, v.Form,
+		strings.Join(ks, "/"), query != "" || strings.HasSuffix(q.Target, "?"), strings.Join(fs, ","), q.ConnKind, q.BodyKind, q.Proto,
+		q.HintKind, q.HintMethod)
 }
 
 // clientSupplied reports whether a header value seen by the back-end repeats a
@@ -1435,7 +1568,7 @@ func (j *judge) witness(o *outcome, k int, v verdict, extra map[string]any) map[
 		"target_url_path":  o.Base,
 		"service_config":   o.Spec,
 		"backend_received": o.RecsBy[k],
-		"generator":        map[string]any{"path_mode": q.PathMode, "hdr_kind": q.HdrKind, "conn_kind": q.ConnKind, "body_kind": q.BodyKind, "lenient": q.Lenient},
+		"generator":        map[string]any{"path_mode": q.PathMode, "hdr_kind": q.HdrKind, "conn_kind": q.ConnKind, "body_kind": q.BodyKind, "lenient": q.Lenient, "hint_kind": q.HintKind, "hint_method": q.HintMethod},
 	}
 	if k < len(o.Resps) {
 		rs := o.Resps[k]
@@ -1495,6 +1628,25 @@ func (j *judge) evaluate(o *outcome) {
 				if decodedPath == sp {
 					r.Bucket("static_path_requests_on_static_content_config", 1)
 				}
+			}
+		}
+		if q.HintKind != "" {
+			r.Bucket("routing_hint_requests_sent", 1)
+			r.Bucket("hint:"+q.HintKind, 1)
+			// does the hint name the method that would make this very target a
+			// clean documented request, while the request line does not?
+			if q.Method != "GET" && q.Method != "POST" && classify(q.HintMethod, q.Target).Expect == "must" {
+				r.Bucket("hint_names_documented_method_on_non_get_post_request", 1)
+				if q.Method == "OPTIONS" && q.HintKind == "cors-preflight" {
+					r.Bucket("options_preflight_naming_documented_method_on_documented_path", 1)
+				}
+			}
+			if (q.Method == "GET" || q.Method == "POST") && q.HintMethod != q.Method && v.Expect == "mustnot" &&
+				classify(q.HintMethod, q.Target).Expect == "must" {
+				r.Bucket("hint_names_documented_method_on_get_post_request_of_wrong_shape", 1)
+			}
+			if contacted {
+				r.Bucket("routing_hint_requests_forwarded", 1)
 			}
 		}
 		multi := multiEncoded(v.Path)
@@ -1787,11 +1939,11 @@ func linkLocalAddrs() (addrs []string, undo func()) {
 func TestCheck(t *testing.T) {
 	r := vkit.Start(t, "C19", "exploration")
 	defer r.Finish()
-	r.Rule("80 hand-written requests (documented shapes, the repository test's near misses, plainest hostile forms, root / robots / static paths on every configuration), then seeded cases; each case = 1 (7%: 2 consecutive, keep-alive) raw HTTP/1.x request(s) on a fresh TCP connection from one of several client addresses (127/8; ::1 and 127/8 on a dual-stack bind; a zoned link-local address) to one of 6 service configurations built through websvc.New (minimal | target URL with path | root redirect + error pages + static content + DNS check + non-DoH bind | root redirect + static | dual-stack bind | zoned link-local bind + root redirect + error pages): " +
+	r.Rule("88 hand-written requests (documented shapes, the repository test's near misses, plainest hostile forms, root / robots / static paths on every configuration), then seeded cases; each case = 1 (7%: 2 consecutive, keep-alive) raw HTTP/1.x request(s) on a fresh TCP connection from one of several client addresses (127/8; ::1 and 127/8 on a dual-stack bind; a zoned link-local address) to one of 6 service configurations built through websvc.New (minimal | target URL with path | root redirect + error pages + static content + DNS check + non-DoH bind | root redirect + static | dual-stack bind | zoned link-local bind + root redirect + error pages): " +
 		"method {GET,POST,HEAD,PUT,DELETE,OPTIONS,PATCH,lower/mixed case,garbage tokens,non-tokens} x target " +
 		"(documented template with 0-2 edits | random grammar of 0-6 segments from {id,empty,.,..,%2e%2e,%2e,%2F,status,long,utf-8/escaped,api words,encoded api words,specials,domain,double/triple-encoded dots and slashes} | a documented shape with a double/triple percent-encoded dot segment or slash (lower/upper/mixed hex) in each placeholder position | " +
 		"prefix-escape patterns | fixed paths; optional query; origin/absolute/asterisk/authority/no-slash form) x header set " +
-		"(7 listed forwarding headers + X-Connecting-IP + 5 unlisted ones forged, duplicated, case-varied; Connection naming them; bodies, chunked bodies with forged trailer). " +
+		"(7 listed forwarding headers + X-Connecting-IP + 5 unlisted ones forged, duplicated, case-varied; Connection naming them; bodies, chunked bodies with forged trailer; routing hints naming a method: Origin + Access-Control-Request-Method/-Headers (and each alone), X-HTTP-Method-Override, X-HTTP-Method, X-Method-Override, _method query / form parameter, Upgrade + Connection: upgrade, Expect: 100-continue, Content-Type variants, X-Original-URL/-Method, X-Forwarded-Method; 9% 'hinted' requests = clean documented path x non-documented method x hint naming the documented method). " +
 		"distinct = (method, target form, sequence of segment classes, query?, forged header set, Connection kind, body kind, protocol); " +
 		"non-trivial = first path segment is linkip/ddns under some reading of the path, or the back-end was contacted")
 	r.Assume("the back-end is reached over plain HTTP on loopback and answers every request with 200")
@@ -1898,6 +2050,12 @@ func TestCheck(t *testing.T) {
 	r.Require("multi_encoded_requests_sent", int64(n/40))
 	r.Require("multi_encoded_requests_forwarded", int64(n/100))
 	r.Require("distinct_peer_addresses_forwarded", 2)
+	// routing hints (CORS preflight headers, method-override headers and
+	// parameters, Upgrade, Expect, Content-Type, X-Original-URL/-Method)
+	r.Require("routing_hint_requests_sent", int64(n/10))
+	r.Require("hint_names_documented_method_on_non_get_post_request", int64(n/60))
+	r.Require("options_preflight_naming_documented_method_on_documented_path", int64(n/600))
+	r.Require("hint_names_documented_method_on_get_post_request_of_wrong_shape", int64(n/1000))
 	// configuration classes: the root path on services with a root redirect
 	// URL, static paths on services with static content
 	r.Require("root_path_requests_on_root_redirect_config", int64(n/400))
